@@ -59,6 +59,8 @@ def run(ctx):
         ownership_rule(ctx, g)
     transmute_census(ctx)
     value_error_rule(ctx)
+    py_signature_rule(ctx)
+    ctor_unguarded_rule(ctx)
     batch_rule(ctx)
     registration_rule(ctx)
     profile_rule(ctx)
@@ -355,3 +357,55 @@ def kmer_binding_rules(ctx):
 def minimiser_binding_rules(ctx):
     delegation_rule(ctx, PYM)
     ownership_rule(ctx, PYM)
+
+
+
+PY_SIGNATURES = {   # wrapper -> (required positional parameters, parameter names) as generated by pyo3 on the pinned tree
+    "pybindings::cgr::CgrComputer::__pymethod___new____": (1, ("vecsize",)),
+    "pybindings::cgr::CgrComputer::__pymethod_vectorise_batch__": (1, ("seqs",)),
+    "pybindings::cgr::CgrComputer::__pymethod_vectorise_one__": (1, ("seq",)),
+    "pybindings::kmer::KmerGenerator::__pymethod___new____": (2, ("seq", "ksize")),
+    "pybindings::kmer::KmerGenerator::__pymethod_to_acgt__": (1, ("kmer",)),
+    "pybindings::min::MinimiserGenerator::__pymethod___new____": (3, ("seq", "wsize", "msize")),
+    "pybindings::min::MinimiserGenerator::__pymethod_to_acgt__": (1, ("mmer",)),
+    "pybindings::oligo::OligoComputer::__pymethod___new____": (1, ("ksize",)),
+    "pybindings::oligo::OligoComputer::__pymethod_vectorise_batch__": (1, ("seqs", "norm")),
+    "pybindings::oligo::OligoComputer::__pymethod_vectorise_one__": (1, ("seq", "norm")),
+}
+
+
+def py_signature_rule(ctx):
+    """the Python-visible call signatures (names, how many are required — i.e. which have defaults) are the documented
+    ones: read from the argument descriptions pyo3 generates (`norm=True` lives only in the #[pyo3(signature)] attribute)"""
+    for wrapper, (req, names) in sorted(PY_SIGNATURES.items()):
+        fv = ctx.view(wrapper + "::DESCRIPTION")
+        who = wrapper.split("::")[-3] + "." + wrapper.split("__pymethod_")[1].rstrip("_")
+        if fv is None:
+            ctx.fail("C13.V", "%s:py_signature" % who, "python method `%s` is no longer exported" % who)
+            continue
+        got = None
+        for n in fv.nodes:
+            if n.get("k") == "struct" and "FunctionDescription" in (n.get("adt") or ""):
+                fs = {x["name"]: fv.term(x["e"]) for x in n["fields"]}
+                r_, p_ = fs.get("required_positional_parameters"), fs.get("positional_parameter_names")
+                if r_ and p_ and r_[0] == "lit" and p_[0] == "array":
+                    got = (r_[1], tuple(x[1] for x in p_[1:] if x[0] == "lit"))
+        ctx.check("C13.V", "%s:py_signature" % who, got == (req, names),
+                  "%s(%s) with %d required" % (who, ", ".join(names), req),
+                  "python signature of %s is %s, documented %s: a default was lost or an argument renamed — calls that "
+                  "worked raise TypeError" % (who, got, (req, names)), fv.fn["sp"])
+
+
+def ctor_unguarded_rule(ctx):
+    """the binding constructors only move their arguments into the core constructors: no added precondition, no early
+    error (every size the core accepts is accepted from Python)"""
+    for path in ("pybindings::kmer::KmerGenerator::new", "pybindings::min::MinimiserGenerator::new",
+                 "pybindings::oligo::OligoComputer::new", "pybindings::cgr::CgrComputer::new"):
+        fv = ctx.view(path)
+        if fv is None:
+            continue
+        branchy = [x for x in fv.nodes if x.get("k") in ("if", "match", "ret", "try") and not x.get("mac")]
+        ctx.check("C13.D", "%s:unconditional" % path.split("::")[-2], not branchy and "Result" not in (fv.fn.get("ret") or ""),
+                  "builds the wrapper unconditionally",
+                  "`%s` has a conditional / fallible path (returns `%s`): some arguments the core accepts are rejected or "
+                  "treated differently from Python" % (path, fv.fn.get("ret")), line_of(branchy[0]) if branchy else fv.fn["sp"])
